@@ -168,3 +168,11 @@ Theorem add_block_refused_exactly_when : forall g n rk e, Inv g ->
    (e = PlainException /\ add_block_refuses = true /\ rget g rk <> None /\ replaces_connected g n)).
 Proof. exact add_block_raises_iff. Qed.
 Print Assumptions add_block_refused_exactly_when.
+Theorem demote_block_refused_exactly_when : forall ns g e, Inv g ->
+  (demote_block g ns = Raise e <-> e = TypeError /\ exists n, In n ns /\ bget g n = None).
+Proof. exact demote_block_raises_iff. Qed.
+Print Assumptions demote_block_refused_exactly_when.
+Theorem demote_block_loses_no_block : forall ns g g', demote_block g ns = Ok g' ->
+  Permutation (blist g) (blist g') /\ bdict g' = bdict g /\ bn g' = bn g.
+Proof. exact demote_block_keeps_blocks. Qed.
+Print Assumptions demote_block_loses_no_block.
